@@ -162,7 +162,7 @@ def _mbox() -> bytes:
 
 
 RTF1 = (r"{\rtf1\ansi\deff0{\fonttbl{\f0 Times;}}{\info{\title Sim Title}{\author Sim Author}{\subject Sim Subject}{\keywords k1, k2}}"
-        r"\pard Hello \b bold\b0  world\par Second \'80 euro \u-10179?\u-8704? emoji\par{\footnote note text}\page Page two\par"
+        r"\pard Hello \b bold\b0  world\par Second \'80 euro \u-10179?\u-8704? emoji\par{\footnote This is a considerably longer footnote text {\i with a nested group that is itself fairly long and wordy enough to matter} and more plain words after it}\page Page two\par"
         r"\trowd\cellx1000\cellx2000 a\cell b\cell\row\pard end}").encode()
 RTF2 = (r"{\rtf1\ansi\ansicpg1252 {\*\generator x;}{\colortbl;\red0\green0\blue0;}\pard\f0 caf\'e9 \u233? na\'efve {\i nested {\b deep}} text\par}").encode()
 HTML1 = (b"<!DOCTYPE html><html><head><title>Sim Title</title><meta name=\"author\" content=\"Sim Author\"><meta name=\"description\" content=\"Sim Description\">"
